@@ -652,3 +652,234 @@ example : FirstHas (fun n => n = "a".toList) (st [(0, "a", 1), (1, "b", 2)]) := 
   · simp [st, Store.set, Store.emptyStore]
 
 end LiquidVerif.C23
+
+/-! # Deepening round
+
+## auto-reload off, whole histories: every hit serves what was served last for that key; without
+eviction every response for a key is the first load -/
+namespace LiquidVerif.C23
+open LiquidVerif.CacheLoader
+
+variable {σ η : Type}
+
+/-- the cache key of a request -/
+def keyOf (cfg : Cfg) (r : Req) : Str := cacheKey cfg r.name r.ctx r.kw
+
+/-- the globals a response to `r` carries -/
+def globalsOf (cfg : Cfg) (r : Req) : Globals := makeGlobals cfg.eg (some (makeGlobals cfg.eg r.globals))
+
+/-- with auto-reload off `get_template(_async)` is: hit → rebind globals, return the cached object;
+miss → load, store, return -/
+theorem getTemplate_off (L : Loader σ η) (cfg : Cfg) (c : Cache (Tpl η)) (s : σ) (r : Req)
+    (hoff : cfg.autoReload = false) :
+    getTemplate L cfg c s r =
+      match find c.items (keyOf cfg r) with
+      | some cached =>
+        (((c.getitem (keyOf cfg r)).1).mutate (keyOf cfg r) { cached with globals := globalsOf cfg r },
+          .ok { cached with globals := globalsOf cfg r })
+      | none =>
+        match refGetTemplate L cfg s r with
+        | .error e => (c, .error e)
+        | .ok t => (c.setitem (keyOf cfg r) t, .ok t) := by
+  rw [getTemplate_eq]
+  unfold checkCacheM keyOf globalsOf
+  cases hf : find c.items (cacheKey cfg r.name r.ctx r.kw) with
+  | none =>
+    rw [getitem_none_eq c _ hf]
+    simp only
+    cases refGetTemplate L cfg s r <;> rfl
+  | some cached =>
+    have : c.getitem (cacheKey cfg r.name r.ctx r.kw) =
+        ({ c with items := eraseKey c.items (cacheKey cfg r.name r.ctx r.kw) ++ [(cacheKey cfg r.name r.ctx r.kw, cached)] }, some cached) := by
+      unfold Cache.getitem; rw [hf]
+    rw [this]
+    simp [hoff]
+
+/-- the history with, for every request: the store it ran on, whether its key was cached when it
+arrived, and its response -/
+def traceOff (L : Loader σ η) (cfg : Cfg) : Cache (Tpl η) → σ → List (Event σ) → List (Req × σ × Bool × Except Err Resp)
+  | _, _, [] => []
+  | c, _, .store s' :: evs => traceOff L cfg c s' evs
+  | c, s, .req r :: evs =>
+    (r, s, (find c.items (keyOf cfg r)).isSome, obsOf (getTemplate L cfg c s r).2)
+      :: traceOff L cfg (getTemplate L cfg c s r).1 s evs
+
+theorem traceOff_run (L : Loader σ η) (cfg : Cfg) (c : Cache (Tpl η)) (s : σ) (evs : List (Event σ)) :
+    (traceOff L cfg c s evs).map (·.2.2.2) = run L cfg c s evs := by
+  induction evs generalizing c s with
+  | nil => rfl
+  | cons ev evs ih =>
+    cases ev with
+    | store s' => simp only [traceOff, run]; exact ih c s'
+    | req r => simp only [traceOff, run, List.map_cons]; rw [ih]
+
+def upd (m : Str → Option (Str × Text)) (k : Str) (v : Str × Text) : Str → Option (Str × Text) :=
+  fun x => if x = k then some v else m x
+
+/-- along a trace: a request whose key is cached gets the name and text **last served for that key**
+(with its own globals); a request whose key is not cached gets the non-caching loader's answer on the
+current store. `m` maps a key to what was last served for it. -/
+def HitsServeLast (L : Loader σ η) (cfg : Cfg) : (Str → Option (Str × Text)) → List (Req × σ × Bool × Except Err Resp) → Prop
+  | _, [] => True
+  | m, (r, s, hit, o) :: rest =>
+    (hit = true → ∃ nt, m (keyOf cfg r) = some nt ∧
+        o = .ok { name := nt.1, text := nt.2, globals := globalsOf cfg r }) ∧
+    (hit = false → o = obsOf (refGetTemplate L cfg s r)) ∧
+    HitsServeLast L cfg
+      (match o with
+        | .ok resp => upd m (keyOf cfg r) (resp.name, resp.text)
+        | .error _ => m) rest
+
+/-- the cache holds, under every key, what was last served for it -/
+def AgreeLast (c : Cache (Tpl η)) (m : Str → Option (Str × Text)) : Prop :=
+  ∀ k t, find c.items k = some t → m k = some (t.name, t.text)
+
+/-- **Auto-reload off, every history, every capacity (evictions included)**: each request either
+misses (its key is not in the cache: evicted or never loaded) and is answered by the non-caching
+loader on the current store, or hits and is answered with exactly the name and text last served for
+its key. Hence between two misses of a key all its responses equal the first load, whatever happens
+to the sources — the precise "serves first" statement in the presence of eviction (when a key is
+evicted is C24's subject: `LiquidVerif.C24.run_refines_spec`). -/
+theorem off_hits_serve_last (L : Loader σ η) (cfg : Cfg) (hoff : cfg.autoReload = false)
+    (evs : List (Event σ)) (c : Cache (Tpl η)) (s : σ) (m : Str → Option (Str × Text))
+    (hn : (ckeys c.items).Nodup) (ha : AgreeLast c m) :
+    HitsServeLast L cfg m (traceOff L cfg c s evs) := by
+  induction evs generalizing c s m with
+  | nil => simp [traceOff, HitsServeLast]
+  | cons ev evs ih =>
+    cases ev with
+    | store s' => simp only [traceOff]; exact ih c s' m hn ha
+    | req r =>
+      simp only [traceOff, HitsServeLast]
+      rw [getTemplate_off L cfg c s r hoff]
+      cases hf : find c.items (keyOf cfg r) with
+      | some cached =>
+        simp only [Option.isSome_some, forall_const, obsOf, Tpl.obs]
+        refine ⟨⟨(cached.name, cached.text), ha _ _ hf, rfl⟩, by simp, ?_⟩
+        apply ih
+        · rw [ckeys_mutate]; exact nodup_getitem c _ hn
+        · intro k t hk
+          by_cases e : k = keyOf cfg r
+          · subst e
+            have h1 : find ((c.getitem (keyOf cfg r)).1).items (keyOf cfg r) = some cached := by
+              rw [find_getitem_self, hf]
+            rw [find_mutate_self _ _ _ _ h1] at hk
+            cases hk
+            simp [upd]
+          · rw [find_mutate_other _ _ e, find_getitem_other _ e] at hk
+            simp only [upd, e, if_false]
+            exact ha k t hk
+      | none =>
+        simp only [Option.isSome_none, Bool.false_eq_true, false_implies, true_and, forall_const]
+        cases hl : refGetTemplate L cfg s r with
+        | error e =>
+          simp only [obsOf, true_and]
+          exact ih c s m hn ha
+        | ok t =>
+          simp only [obsOf, true_and]
+          apply ih
+          · exact nodup_setitem c _ t hn
+          · intro k t' hk
+            by_cases e : k = keyOf cfg r
+            · subst e
+              rw [find_setitem_self] at hk
+              cases hk
+              simp [upd, Tpl.obs]
+            · simp only [upd, e, if_false]
+              exact ha k t' (find_setitem_other_sub c _ t hn e hk)
+
+/-- **Auto-reload off, no eviction: every later response for a key is the first load.** If all the
+keys in play (cached or requested) fit the capacity — they lie in a list `K` no longer than the
+capacity — and the cache holds `(name, text) = t0` under key `k`, then along the whole history,
+whatever store changes and whatever other requests intervene (sync or async, any globals), every
+request with key `k` is answered with `t0` and its own globals. -/
+theorem serves_first_sequence (L : Loader σ η) (cfg : Cfg) (hoff : cfg.autoReload = false)
+    (K : List Str) (k : Str) (t0 : Str × Text)
+    (evs : List (Event σ)) (c : Cache (Tpl η)) (s : σ)
+    (hcap : K.length ≤ c.cap) (hn : (ckeys c.items).Nodup) (hsub : ∀ x ∈ ckeys c.items, x ∈ K)
+    (hreq : ∀ r ∈ reqsOf evs, keyOf cfg r ∈ K)
+    (hk : ∃ t, find c.items k = some t ∧ (t.name, t.text) = t0) :
+    ∀ e ∈ traceOff L cfg c s evs, keyOf cfg e.1 = k →
+      e.2.2.2 = .ok { name := t0.1, text := t0.2, globals := globalsOf cfg e.1 } := by
+  induction evs generalizing c s with
+  | nil => intro e he; simp [traceOff] at he
+  | cons ev evs ih =>
+    cases ev with
+    | store s' =>
+      simp only [traceOff]
+      exact ih c s' hcap hn hsub (fun r hr => hreq r (by simpa [reqsOf] using hr)) hk
+    | req r =>
+      have hrK : keyOf cfg r ∈ K := hreq r (by simp [reqsOf])
+      have hreq' : ∀ r' ∈ reqsOf evs, keyOf cfg r' ∈ K := fun r' hr' => hreq r' (by simp [reqsOf, hr'])
+      obtain ⟨t, hkt, ht0⟩ := hk
+      simp only [traceOff, List.mem_cons]
+      rw [getTemplate_off L cfg c s r hoff]
+      cases hf : find c.items (keyOf cfg r) with
+      | some cached =>
+        simp only
+        have hc' : ∃ t', find (((c.getitem (keyOf cfg r)).1).mutate (keyOf cfg r)
+            { cached with globals := globalsOf cfg r }).items k = some t' ∧ (t'.name, t'.text) = t0 := by
+          by_cases e : k = keyOf cfg r
+          · subst e
+            have h1 : find ((c.getitem (keyOf cfg r)).1).items (keyOf cfg r) = some cached := by
+              rw [find_getitem_self, hf]
+            rw [hf] at hkt; cases hkt
+            exact ⟨_, find_mutate_self _ _ _ _ h1, ht0⟩
+          · rw [find_mutate_other _ _ e, find_getitem_other _ e]; exact ⟨t, hkt, ht0⟩
+        intro e he hke
+        rcases he with he | he
+        · subst he
+          simp only at hke ⊢
+          rw [hke] at hf
+          rw [hf] at hkt; cases hkt
+          simp only [obsOf, Tpl.obs]
+          rw [← ht0]
+        · refine ih _ s ?_ ?_ ?_ hreq' hc' e he hke
+          · show K.length ≤ (c.getitem (keyOf cfg r)).1.cap
+            rw [cap_getitem]; exact hcap
+          · rw [ckeys_mutate]; exact nodup_getitem c _ hn
+          · rw [ckeys_mutate]; intro x hx; exact hsub x (mem_ckeys_getitem hx)
+      | none =>
+        have hne : k ≠ keyOf cfg r := by intro e; rw [e, hf] at hkt; cases hkt
+        cases hl : refGetTemplate L cfg s r with
+        | error e' =>
+          simp only
+          intro e he hke
+          rcases he with he | he
+          · subst he; exact absurd hke.symm hne
+          · exact ih c s hcap hn hsub hreq' ⟨t, hkt, ht0⟩ e he hke
+        | ok tn =>
+          simp only
+          have hlt : c.items.length < c.cap := by
+            have hnotin := (find_none_iff c.items (keyOf cfg r)).mp hf
+            have h1 : (keyOf cfg r :: ckeys c.items).Nodup := List.nodup_cons.mpr ⟨hnotin, hn⟩
+            have h2 := nodup_subset_length (keyOf cfg r :: ckeys c.items) K h1 (by
+              intro x hx
+              rcases List.mem_cons.mp hx with h | h
+              · rw [h]; exact hrK
+              · exact hsub x h)
+            simp only [List.length_cons, ckeys, List.length_map] at h2
+            omega
+          intro e he hke
+          rcases he with he | he
+          · subst he; exact absurd hke.symm hne
+          · refine ih _ s ?_ ?_ ?_ hreq' ?_ e he hke
+            · rw [cap_setitem]; exact hcap
+            · exact nodup_setitem c _ tn hn
+            · intro x hx
+              rcases mem_ckeys_setitem hx with h | h
+              · rw [h]; exact hrK
+              · exact hsub x h
+            · rw [find_setitem_other_noevict c _ tn hne (fun _ => hlt)]; exact ⟨t, hkt, ht0⟩
+
+/-- non-vacuity: a two-key history within capacity 2 in which the source of `a` changes and `b` is
+requested in between — `a` keeps being served as first loaded -/
+example :
+    run dictLoader { autoReload := false, nsKey := false, eg := [] } (Cache.empty 2) (st [(0, "a", 1), (0, "b", 2)])
+      [.req (rq "a" none .sync), .store (st [(0, "a", 3), (0, "b", 4)]), .req (rq "b" none .async),
+       .req (rq "a" none .async)]
+      = [.ok { name := "a".toList, text := ("a".toList, 1), globals := [] },
+         .ok { name := "b".toList, text := ("b".toList, 4), globals := [] },
+         .ok { name := "a".toList, text := ("a".toList, 1), globals := [] }] := by decide
+
+end LiquidVerif.C23
